@@ -108,3 +108,38 @@ def component_state_tables():
     text += "Local Open Scope string_scope.\nDefinition call_sites : list (string * string * string) := [\n " + ";\n ".join('("%s", "%s", "%s")' % s for s in sites) + "].\n"
     vlib.write_if_changed(os.path.join(vlib.COQ, "Gen", "CompState.v"), text)
     return {"pairs": pairs, "any": anyt, "edges": edges, "sites": sites}, ""
+
+
+def consent_tables():
+    """coq/Gen/Consent.v: the timer constants of agent/agent-priv.h plus a shape check of the consent-expiry and keepalive
+    re-arming arithmetic of agent/conncheck.c (the exact statements coq/Agent/ConsentModel.v models)."""
+    hdr = open(os.path.join(vlib.REPO, "agent/agent-priv.h")).read()
+    consts = {}
+    for n in ("TA_DEFAULT", "TR_DEFAULT", "CONSENT_DEFAULT", "CONSENT_TIMEOUT", "MIN_CONSENT_INTERVAL", "KEEPALIVE_TIMEOUT"):
+        m = re.search(r"#define\s+NICE_AGENT_TIMER_%s\s+(\d+)" % n, hdr)
+        if not m:
+            return None, "NICE_AGENT_TIMER_%s not found in agent/agent-priv.h" % n
+        consts[n] = int(m.group(1))
+    src = open(os.path.join(vlib.REPO, "agent/conncheck.c")).read()
+    flat = re.sub(r"/\*.*?\*/", " ", src, flags=re.S)
+    flat = re.sub(r"\s+", " ", flat)
+    need = [
+        "if (agent->consent_freshness) { consent_timeout = NICE_AGENT_TIMER_CONSENT_TIMEOUT * 1000; } else { consent_timeout = NICE_AGENT_TIMER_KEEPALIVE_TIMEOUT* 1000; }",
+        "if (now - pair->remote_consent.last_received > consent_timeout) {",
+        "pair->remote_consent.have = FALSE;",
+        "guint64 delay = (consent_timeout - (now - pair->remote_consent.last_received)) / 1000;",
+        "\"Pair remote consent\", delay, priv_conn_remote_consent_tick_agent_locked, pair);",
+        "double modifier = g_random_double() * 0.4 + 0.8;",
+        "guint64 delay = 1000 * MAX((guint64) ((NICE_AGENT_TIMER_CONSENT_DEFAULT) * modifier), NICE_AGENT_TIMER_MIN_CONSENT_INTERVAL);",
+        "p->keepalive.next_tick = now + delay;",
+        "p->keepalive.next_tick = now + 1000 * NICE_AGENT_TIMER_TR_DEFAULT;",
+        "component->selected_pair.remote_consent.last_received = now;",
+    ]
+    for n in need:
+        if n not in flat:
+            return None, "agent/conncheck.c no longer contains the modelled statement `%s`" % n
+    text = "(* GENERATED from agent/agent-priv.h (shape of agent/conncheck.c checked) by lib/tabgen.py - do not edit *)\nFrom Coq Require Import ZArith.\nLocal Open Scope Z_scope.\n"
+    for k, v in consts.items():
+        text += "Definition T_%s : Z := %d.\n" % (k, v)
+    vlib.write_if_changed(os.path.join(vlib.COQ, "Gen", "Consent.v"), text)
+    return consts, ""
